@@ -1,6 +1,8 @@
 package main
 
 import (
+	"time"
+	"math"
 	"encoding/base64"
 	"encoding/json"
 	"fmt"
@@ -177,6 +179,7 @@ func lengthSweep(prop string, args []string) int {
 		}
 	}
 	var cnt int64
+	var origSaved []byte
 	for i, n := range lens {
 		if !f.Mine(i) {
 			continue
@@ -202,7 +205,39 @@ func lengthSweep(prop string, args []string) int {
 		cnt++
 		if prop == "C09" {
 			c09lenCheck(out, w.b, n, ks, val, ints, bools, strs)
+		}
+		if n <= 300 && prop != "C08" {
+			// hardware and IP addresses of every length (both are plain byte slices): C08's statement is limited to 6-byte
+			// MACs and 4/16-byte IPs, the JSON text forms and the binary representation are not
+			mac, ip := net.HardwareAddr(val), net.IP(val)
+			origSaved = append([]byte(nil), w.b...)
+			l.Log().MACAddr("mac", mac).IPAddr("ip", ip).Array("arr", zerolog.Arr().MACAddr(mac).IPAddr(ip)).Send()
+			out.Count("address_lengths_logged", 1)
+			if prop == "C09" {
+				if m := c09members(out, w.b, fmt.Sprintf("addresses of %d bytes", n)); m != nil {
+					for _, k := range []string{"mac", "ip"} {
+						if a := m[k]; a == nil || a.Major != 6 || a.Arg != 260 || !isBytes(a.Child, val) {
+							out.Violate("sweep:length:address", fmt.Sprintf("a %d-byte %s address is not carried as tag 260 around its bytes", n, k), map[string]interface{}{"check": "c09-sweep", "length": n, "bytes_hex": fmt.Sprintf("%x", clipb(w.b))})
+						}
+					}
+				}
+			} else {
+				var m map[string]interface{}
+				if err := json.Unmarshal(w.b, &m); err != nil {
+					out.Violate("length:invalid", fmt.Sprintf("addresses of %d bytes: encoding/json rejects the event: %v", n, err), map[string]interface{}{"check": "length-sweep", "length": n, "bytes": fmt.Sprintf("%q", clipb(w.b))})
+				} else {
+					arr, _ := m["arr"].([]interface{})
+					if m["mac"] != mac.String() || m["ip"] != ip.String() || len(arr) != 2 || arr[0] != mac.String() || arr[1] != ip.String() {
+						out.Violate("length:address", fmt.Sprintf("addresses of %d bytes: logged MAC %q and IP %q, the event has %v / %v / %v", n, mac.String(), ip.String(), m["mac"], m["ip"], m["arr"]), map[string]interface{}{"check": "length-sweep", "length": n, "bytes": fmt.Sprintf("%q", clipb(w.b))})
+					}
+				}
+			}
+		}
+		if prop == "C09" {
 			continue
+		}
+		if origSaved != nil {
+			w.b, origSaved = origSaved, nil
 		}
 		if prop == "C08" {
 			w.b = cbor.DecodeIfBinaryToBytes(w.b)
@@ -263,6 +298,91 @@ func lengthSweep(prop string, args []string) int {
 				}
 			}
 		}
+	}
+	// instants from year 1 to year 9999, whole seconds and binary-exact fractions (so that the float seconds of the binary
+	// encoding are exact at any distance from 1970), through every entry point that carries a time
+	if f.Shard == 0 {
+		oldF := zerolog.TimeFieldFormat
+		zerolog.TimeFieldFormat = time.RFC3339Nano
+		for _, year := range []int{1, 2, 1000, 1600, 1677, 1678, 1900, 1969, 1970, 1971, 2100, 2262, 2263, 2300, 5000, 9999} {
+			for _, frac := range []int{0, 500000000, 250000000, 750000000, 125000000} {
+				for zi, zone := range []*time.Location{time.UTC, time.FixedZone("", 5*3600+1800)} {
+					t := time.Date(year, 1, 2, 3, 4, 5, frac, zone)
+					cl := l.With().Time("c", t).Logger()
+					cl.Log().Time("e", t).Times("s", []time.Time{t, t}).Array("a", zerolog.Arr().Time(t)).Fields(map[string]interface{}{"f": t}).Send()
+					cnt++
+					out.Count("far_instants_logged", 1)
+					rep := map[string]interface{}{"check": "length-sweep", "instant": t.Format(time.RFC3339Nano)}
+					if prop == "C09" {
+						m := c09members(out, w.b, "instant "+t.Format(time.RFC3339Nano))
+						if m == nil {
+							continue
+						}
+						for _, k := range []string{"c", "e", "f"} {
+							n := m[k]
+							okv := n != nil && n.Major == 6 && n.Arg == 1 && n.Child != nil
+							if okv {
+								c := n.Child
+								switch {
+								case c.Float:
+									okv = c.Info == 27 && math.Float64frombits(c.Bits) == float64(t.Unix())+float64(frac)*1e-9
+								case c.Major == 0:
+									okv = frac == 0 && int64(c.Arg) == t.Unix()
+								case c.Major == 1:
+									okv = frac == 0 && -1-int64(c.Arg) == t.Unix()
+								default:
+									okv = false
+								}
+							}
+							if !okv {
+								rep["bytes_hex"] = fmt.Sprintf("%x", clipb(w.b))
+								out.Violate("sweep:instant", fmt.Sprintf("instant %s logged through member %q is not carried as tag 1 around its seconds since 1970", t.Format(time.RFC3339Nano), k), rep)
+								break
+							}
+						}
+						continue
+					}
+					if prop == "C08" {
+						w.b = cbor.DecodeIfBinaryToBytes(w.b)
+					}
+					var m map[string]interface{}
+					if err := json.Unmarshal(w.b, &m); err != nil {
+						rep["bytes"] = fmt.Sprintf("%q", clipb(w.b))
+						out.Violate("instant:invalid", fmt.Sprintf("instant %s: encoding/json rejects the event: %v", t.Format(time.RFC3339Nano), err), rep)
+						continue
+					}
+					vals := []interface{}{m["c"], m["e"], m["f"]}
+					if a, ok := m["a"].([]interface{}); ok && len(a) == 1 {
+						vals = append(vals, a[0])
+					} else {
+						vals = append(vals, nil)
+					}
+					if sl, ok := m["s"].([]interface{}); ok && len(sl) == 2 {
+						vals = append(vals, sl[0], sl[1])
+					} else {
+						vals = append(vals, nil)
+					}
+					for vi, v := range vals {
+						str, _ := v.(string)
+						got, err := time.Parse(time.RFC3339Nano, str)
+						bad := err != nil
+						if !bad {
+							d := got.Sub(t)
+							bad = d > time.Microsecond || d < -time.Microsecond || (prop == "C02" && str != t.Format(time.RFC3339Nano))
+							if got.Year() != t.In(got.Location()).Year() { // Sub saturates: compare the calendar too
+								bad = true
+							}
+						}
+						if bad {
+							rep["bytes"] = fmt.Sprintf("%q", clipb(w.b))
+							out.Violate("instant:value", fmt.Sprintf("instant %s (zone %d) through entry point %d (0 context, 1 event, 2 Fields, 3 Array, 4-5 Times) reads back as %v", t.Format(time.RFC3339Nano), zi, vi, v), rep)
+							break
+						}
+					}
+				}
+			}
+		}
+		zerolog.TimeFieldFormat = oldF
 	}
 	// nesting depth 0..300: dictionaries in dictionaries, and a chain of object marshalers inside an array in the context
 	if f.Shard == 0 {
